@@ -274,7 +274,9 @@ def check_overlap_surfaces(ctx):
     for d in D.get_drivers(repo):
         if d.kind == 'pack':
             D.check_handlers(ctx, 'R7-overlap-surfaces', d)
-    # and the collision guards themselves (C11-4) are part of C11; referenced, not repeated
+    # the collision guards themselves (C11 clauses 4 and 7)
+    from .c11 import check as c11_check
+    c11_check(ctx, parts=('guards', 'atomic'))
 
 
 def check(ctx):
